@@ -10,7 +10,8 @@ W=$(mktemp -d /tmp/wben.XXXXXX); rmdir "$W"
 git -C /repo worktree add --detach "$W" >/dev/null 2>&1 || { echo "worktree failed"; exit 2; }
 cleanup() { git -C /repo worktree remove --force "$W" >/dev/null 2>&1; rm -rf "$W"; }
 trap cleanup EXIT
-if ! git -C "$W" apply "$P" 2>/dev/null; then
+if [ -n "${FORCE_BASE:-}" ] || ! git -C "$W" apply "$P" 2>/dev/null; then
+  git -C "$W" checkout -q -- . 2>/dev/null
   # written against an older HEAD: fall back to the commit the patch authors saw
   git -C "$W" checkout -q --detach ${BENIGN_BASE:-a54dab0} && git -C "$W" apply "$P" || { echo "patch failed" > "$OUT"; exit 2; }
   echo "# applied on ${BENIGN_BASE:-a54dab0} (does not apply to HEAD)" > "$OUT.base"
